@@ -117,6 +117,12 @@ def writeProp (ps : Props) (k : String) (v : Val) : Except Err (Props × Nat) :=
 def applyMap (g0 : Graph) (r : Row) (start : Props) (m : MapLit) : Except Err Props :=
   m.foldlM (fun ps (k, e) => do let (ps', _) ← writeProp ps k (evalIn A params g0 r e); pure ps') start
 
+/-- property map of a CREATE / MERGE pattern: a null entry means "not set" -/
+def createMap (g0 : Graph) (r : Row) (start : Props) (m : MapLit) : Except Err Props :=
+  m.foldlM (fun ps (k, e) =>
+    let v := evalIn A params g0 r e
+    if v == .null then pure ps else do let (ps', _) ← writeProp ps k v; pure ps') start
+
 /-- number of keys whose value differs between two property maps (removed, added or changed) -/
 def propDiff (old new : Props) : Nat :=
   (old.filter fun (k, _) => !new.any (·.1 == k)).length +
@@ -180,7 +186,7 @@ def remItem (r : Row) (s : St) : RemItem → Except Err St
 
 def createNode (g0 : Graph) (r : Row) (s : St) (np : NodePat) : Except Err (St × Nat) := do
   let id := freshId s.g s.next
-  let props ← applyMap A params g0 r [] np.props
+  let props ← createMap A params g0 r [] np.props
   let nd : NodeRec := ⟨id, np.labels.eraseDups, props⟩
   pure ({ s with g := { s.g with nodes := s.g.nodes ++ [nd] }, next := id + 1,
                  c := { s.c with nodesCreated := s.c.nodesCreated + 1 } }, id)
@@ -198,7 +204,7 @@ def createRel (g0 : Graph) (r : Row) (s : St) (rp : RelPat) (a b : Nat) : Except
   let some ty := rp.types.head? | throw .other
   let id : RelId := match rp.dir with | .inn => ⟨b, ty, a⟩ | _ => ⟨a, ty, b⟩
   let g := addRelCopy s.g id
-  let props ← applyMap A params g0 r (propsOf g (.rel id)) rp.props
+  let props ← createMap A params g0 r (propsOf g (.rel id)) rp.props
   let s := { s with g := setProps g (.rel id) props, c := { s.c with relsCreated := s.c.relsCreated + 1 } }
   pure (s, match rp.var with | some x => r.set x (.rel id) | none => r)
 
